@@ -429,8 +429,13 @@ class PythonTypesBackend(CodeBackend):
         # As an edge case, we union omitted callers with None in the case when the object has no
         # public fields, as we still need to generate public attributes (`_field_names_` etc)
         child_omitted_callers = data_type.get_all_omitted_callers() | {None}
-        parent_omitted_callers = data_type.parent_type.get_all_omitted_callers() if \
-            data_type.parent_type else set()
+        # Callers of every ancestor, not only of the direct parent: the tables
+        # of each struct build on those of its parent.
+        parent_omitted_callers = set()
+        ancestor = data_type.parent_type
+        while ancestor:
+            parent_omitted_callers |= ancestor.get_all_omitted_callers()
+            ancestor = ancestor.parent_type
 
         for omitted_caller in sorted(child_omitted_callers | parent_omitted_callers, key=str):
             is_public = omitted_caller is None
@@ -871,8 +876,12 @@ class PythonTypesBackend(CodeBackend):
 
         # generate _all_fields_ for each omitted caller (and public)
         child_omitted_callers = data_type.get_all_omitted_callers()
-        parent_omitted_callers = data_type.parent_type.get_all_omitted_callers() if \
-            data_type.parent_type else set()
+        # Callers of every ancestor, not only of the direct parent.
+        parent_omitted_callers = set()
+        ancestor = data_type.parent_type
+        while ancestor:
+            parent_omitted_callers |= ancestor.get_all_omitted_callers()
+            ancestor = ancestor.parent_type
 
         all_omitted_callers = child_omitted_callers | parent_omitted_callers
         if len(all_omitted_callers) != 0:
